@@ -47,7 +47,10 @@ type Line struct {
 	Base   int     `json:"base,omitempty"`  // base run time in ms
 	Ever   bool    `json:"ever,omitempty"`  // background process runs until signalled
 	Word2  int     `json:"word2,omitempty"` // second file of a two-argument exists
+	Hold   int     `json:"hold,omitempty"`  // exec: index into holds - a descendant of the program keeps its output pipes open this long after it exited
 }
+
+var holds = []string{"", "1500ms", "40s"}
 
 type Plan struct {
 	Lines    []Line      `json:"lines"`
@@ -126,6 +129,9 @@ func genPlan(t *rapid.T, tier string) any {
 			}
 		}
 		l.Word2 = rapid.IntRange(0, 5).Draw(t, "word2")
+		if rapid.IntRange(0, 7).Draw(t, "hold") == 0 {
+			l.Hold = rapid.IntRange(1, len(holds)-1).Draw(t, "holdidx")
+		}
 		p.Lines = append(p.Lines, l)
 	}
 	p.Continue = rapid.IntRange(0, 2).Draw(t, "continue") == 0
@@ -453,6 +459,9 @@ func render(p *Plan, factor []int) (string, verdict, int) {
 		switch l.Cmd {
 		case "execfg":
 			text += fmt.Sprintf("exec stub %s code=%d", run, l.Code)
+			if l.Hold%len(holds) != 0 {
+				text += " hold=" + holds[l.Hold%len(holds)]
+			}
 			if l.Out != 0 {
 				text += fmt.Sprintf(" 'out=%s'", outs[l.Out])
 			}
@@ -726,7 +735,7 @@ func numbered(text string) string {
 var harness = &simcheck.Harness{
 	Property: "C01",
 	Level:    "exploration",
-	Rule: "rapid draws a script of up to 12 lines over the engine's command subset ([cond]/[!cond] guards with a custom Condition and OS conditions, !, a stateful custom condition, a custom condition whose evaluation reports an error (the line is then the offending one), exec foreground / background / named with seeded exit code, output and run time, exec of a file that cannot be started, a 70 KB line, " +
+	Rule: "rapid draws a script of up to 12 lines over the engine's command subset ([cond]/[!cond] guards with a custom Condition and OS conditions, !, a stateful custom condition, a custom condition whose evaluation reports an error (the line is then the offending one), exec foreground / background / named with seeded exit code, output and run time, foreground programs whose descendant keeps the output pipes open for 1.5 s or 40 s after they exit, exec of a file that cannot be started, a 70 KB line, " +
 		"wait [name], kill -INT, stdout / stderr with literal patterns and -count, cmp stdout|stderr file, stdin, exists, one- and two-argument exists, stop, skip, an unknown command, probe / snap (exact stdout and stderr as the script sees them) / failing custom commands, phase comments) and ContinueOnError; " +
 		"lines whose meaning would depend on timing or is undocumented in the current state are dropped at rendering; each script runs under 2 (quick) / 3 (thorough) latency assignments with different schedule seeds; " +
 		"non-trivial = the expected verdict is not a plain pass or some probe ran; distinct by the hash of script and decision trace",
